@@ -295,8 +295,11 @@ def handle (line : String) : String :=
                      | [] => ""
                      | jsonN :: _ =>
                        if pre2.any (fun c => acc c.info) then "" else
-                       let leafName := (chain.head?.map (·.name)).getD ""
-                       if (jsonN.flatten.map (·.name)).contains leafName then "" else "SPEC C08:well-formed-document-not-reported-as-json")
+                       -- judged on the implementation's own result (not on the model's walk over the verdicts)
+                       let goLeaf : Bytes := match parseGoWalk goRes with
+                         | some (gc, _) => (gc.head?.map (·.1)).getD []
+                         | none => []
+                       if (jsonN.flatten.map (·.mime)).contains goLeaf then "" else "SPEC C08:well-formed-document-not-reported-as-json")
               | none => ""
             else ""
           | none => ""
@@ -403,7 +406,17 @@ def handle (line : String) : String :=
         let goStr := ((goRes.splitOn " ").getD 1 "")
         let three := [bhex mimeTextPlain, bhex mimeTextHtml, bhex mimeTextXml]
         let d7 := if !three.contains leafMime && goStr != leafMime then "SPEC C02:parameter-on-a-type-other-than-the-three-text-types" else ""
-        let all := [d1, d2, d3, d3b, d4, d5, d6, d7].filter (· != "")
+        -- C11: a text/plain result (whichever node carries that type, built-in or registered through Extend)
+        -- carries the charset the sniffing rules give for the examined header
+        let d8 := if leafMime == bhex mimeTextPlain then
+            (let h := header _raw _l
+             let pre := bhex (ofString "text/plain; charset=")
+             let want := Charset.fromPlain h
+             if want.isEmpty then ""
+             else if goStr.startsWith pre then Spec.charsetSpec h (String.ofList (goStr.toList.drop pre.length))
+             else "SPEC C11:text-plain-result-without-charset")
+          else ""
+        let all := [d1, d2, d3, d3b, d4, d5, d6, d7, d8].filter (· != "")
         if all.isEmpty then "OK" else String.intercalate " ; " all
       | _, _, _ => "BAD args"
     | ["resext", _hx, _lim] =>
